@@ -127,3 +127,31 @@ m("kahn-dedupe-edges-keep-indegree", ["C14"], "wtxmgr/kahnsort.go",
   "				if *outEdge == input.PreviousOutPoint.Hash {\n					continue inputLoop", "				if *outEdge == txHash {\n					node := graph[txHash]\n					node.inDegree++\n					graph[txHash] = node\n					continue inputLoop")
 m("kahn-roots-shortcut-ge", ["C14"], "wtxmgr/kahnsort.go",
   "	if len(s) == len(txs) {\n		return s", "	if len(s)+1 >= len(txs) {\n		return s")
+
+# ---------------- wallet: chain following (C15) ----------------
+m("disconnect-no-txstore-rollback", ["C15"], "wallet/chainntfns.go",
+  """			err = w.TxStore.Rollback(txmgrNs, b.Height)
+			if err != nil {
+				return err
+			}""", "			_ = txmgrNs")
+m("disconnect-rollback-height-plus-1", ["C15"], "wallet/chainntfns.go",
+  "			err = w.TxStore.Rollback(txmgrNs, b.Height)\n", "			err = w.TxStore.Rollback(txmgrNs, b.Height+1)\n")
+m("startup-rollback-off-by-one", ["C15"], "wallet/wallet.go",
+  "		return w.TxStore.Rollback(txmgrNs, rollbackStamp.Height+1)", "		return w.TxStore.Rollback(txmgrNs, rollbackStamp.Height+2)")
+m("disconnect-zero-hash-again", ["C15"], "wallet/chainntfns.go",
+  "			bs.Hash = *hash\n", "			b.Hash = *hash\n")
+m("disconnect-ignore-hash-compare", ["C15"], "wallet/chainntfns.go",
+  "		if bytes.Equal(hash[:], b.Hash[:]) {", "		if bytes.Equal(hash[:], b.Hash[:]) || true {")
+m("putsyncedto-keep-old-hash", ["C15"], "waddrmgr/db.go",
+  """	// Store the block hash by block height.
+	if err := addBlockHash(ns, bs.Height, bs.Hash); err != nil {
+		return managerError(ErrDatabase, errStr, err)
+	}""",
+  """	// Store the block hash by block height.
+	if _, err := fetchBlockHash(ns, bs.Height); err != nil {
+		if err := addBlockHash(ns, bs.Height, bs.Hash); err != nil {
+			return managerError(ErrDatabase, errStr, err)
+		}
+	}""")
+m("startup-no-rollback-loop", ["C15"], "wallet/wallet.go",
+  "			if bytes.Equal(hash[:], chainHash[:]) {\n				break\n			}\n			rollback = true", "			if bytes.Equal(hash[:], chainHash[:]) || true {\n				break\n			}\n			rollback = true")
